@@ -108,6 +108,7 @@ fn eval(case: &Case, bound: usize, acc: &Acc) -> Vec<Violation> {
         }
     }
     acc.count("states", states);
+    acc.fallback(|| json!({"grammar": short, "orders_explored": states}));
     if acc.want_sample() && base_trace.iter().filter(|t| t.1 > 1).count() >= 3 {
         acc.sample(json!({"grammar": short, "choice_points": base_trace.iter().filter(|t| t.1 > 1).count(), "orders_explored": states}));
     }
